@@ -225,6 +225,7 @@ func c15(c *Ctx) {
 	c15PresenceGuardsOnly(c, "C15.10/conversion-guards-are-presence-tests")
 	c15WireIntegersSignExtended(c, "C15.13/wire-integers-are-sign-extended")
 	c15BinaryResultsCoverEveryType(c, "C15.14/binary-results-cover-every-type")
+	c15TempRowCodec(c, "C15.15/sorted-rows-round-trip")
 	c15ValueUsedOnSuccessOnly(c, "C15.12/fallible-getter-value-used-on-success-only", func(f *ssa.Function) bool {
 		// the converters between the store's types and their messages (module-wide the shape also matches partial results
 		// such as the byte count of a failed Write, returned on purpose)
@@ -873,5 +874,49 @@ func c15BinaryResultsCoverEveryType(c *Ctx, r string) {
 	}
 	for _, t := range sortedKeys(stor) {
 		c.check(sent[t], r, "binary-format:"+t, c.pos(dr.Pos()), "has a binary encoding in DataRow", "a value of type "+t+" can be stored and returned, but the binary result format has no case for it: it is sent as a zero-length value")
+	}
+}
+
+// c15TempRowCodec: rows that do not fit the sort buffer travel through temporary files. Their codec has to give back
+// what it was given: (a) the "nullable" value codec writes NULL as a zero length, which is also the encoding of the empty
+// string and of the empty blob - it is not used to carry row values (no caller outside tests); (b) the size of a row is
+// not narrowed to 16 bits on either side (a row can hold values up to MaxValueLen).
+func c15TempRowCodec(c *Ctx, r string) {
+	for _, name := range []string{"embedded/sql.EncodeNullableValue", "embedded/sql.DecodeNullableValue"} {
+		if c.mustFn(r, name) == nil {
+			continue
+		}
+		var callers []string
+		for _, in := range c.callSites(callTo(name)) {
+			callers = append(callers, fnName(topFn(in.Parent()))+" @"+c.pos(in.Pos()))
+		}
+		c.check(len(callers) == 0, r, "ambiguous-codec-not-used:"+lastSeg(name), "", "no caller", lastSeg(name)+" (NULL and the empty string both encode as a zero length) carries row values in "+strings.Join(callers, ", ")+": an empty string or blob comes back as NULL")
+	}
+	n := 0
+	for _, name := range []string{"embedded/sql.(*fileSorter).encodeRow", "embedded/sql.(*fileRowReader).readValues"} {
+		f := c.mustFn(r, name)
+		if f == nil {
+			continue
+		}
+		narrow := ""
+		allInstrs(f, false, func(in ssa.Instruction) {
+			switch x := in.(type) {
+			case *ssa.Convert:
+				if b, ok := x.Type().Underlying().(*types.Basic); ok && b.Kind() == types.Uint16 {
+					narrow = c.pos(in.Pos())
+				}
+			case *ssa.Alloc:
+				if p, ok := x.Type().Underlying().(*types.Pointer); ok {
+					if b, ok := p.Elem().Underlying().(*types.Basic); ok && b.Kind() == types.Uint16 {
+						narrow = c.pos(in.Pos())
+					}
+				}
+			}
+		})
+		n++
+		c.check(narrow == "", r, fnName(f)+":row-size-not-16-bit", c.pos(f.Pos()), "the row size is not carried in 16 bits", "the size of a sorted row is carried in 16 bits ("+narrow+"): a row larger than 64 KiB is cut, the file is read back as corrupted")
+	}
+	if n < 2 {
+		c.undecided(r, "floor", "the row codec of the file sorter was not found")
 	}
 }
